@@ -293,3 +293,12 @@ package layout
 //@     decreases endBucket + 1 - b
 //@   loop 3:
 //@     decreases endBucket + 1 - b
+
+// ---- C09: a paragraph is folded into a heading or list element (instead of being emitted a second time) when their
+// boxes overlap by more than half of the SMALLER box ----
+//@ func bboxOverlaps results (r)
+//@   property C09
+//@   flags pure
+//@   let ox = min(a.X + a.Width, b.X + b.Width) - max(a.X, b.X)
+//@   let oy = min(a.Y + a.Height, b.Y + b.Height) - max(a.Y, b.Y)
+//@   ensures more_than_half_of_the_smaller_box: r <==> (ox > 0.0 && oy > 0.0 && ox * oy > min(a.Width * a.Height, b.Width * b.Height) * 0.5 && !(a.X + a.Width < b.X || b.X + b.Width < a.X) && !(a.Y + a.Height < b.Y || b.Y + b.Height < a.Y))
